@@ -49,8 +49,13 @@ def _select(mask: torch.Tensor, old_v, cur_v):
         value = torch.where(mask, old_w.value, cur_w.value)
         if old_w.weight is None and cur_w.weight is None:
             return WeightedTensor(value)
-        old_wgt = old_w.weight if old_w.weight is not None else cur_w.weight
-        cur_wgt = cur_w.weight if cur_w.weight is not None else old_w.weight
+        # a side that carries no weights is fully weighted (weight 1 everywhere)
+        old_wgt = (
+            old_w.weight if old_w.weight is not None else torch.ones_like(cur_w.weight)
+        )
+        cur_wgt = (
+            cur_w.weight if cur_w.weight is not None else torch.ones_like(old_w.weight)
+        )
         return WeightedTensor(value, torch.where(mask, old_wgt, cur_wgt))
     return torch.where(mask, old_v, cur_v)
 
